@@ -81,6 +81,9 @@ class HyperVFile:
                     self.object_tables.append(new_object_table)
 
                 if entry.type == ObjectEntryType.KeyTable:
+                    if any(table.offset == entry.offset for tables in self.key_tables.values() for table in tables):
+                        # Already loaded, every additional reference would keep another copy of the table data
+                        continue
                     key_table = HyperVStorageKeyTable(self, entry.offset, entry.size)
                     if key_table.index not in self.key_tables:
                         self.key_tables[key_table.index] = []
